@@ -256,32 +256,28 @@ def spec_distance(rows, n, min_freq):
     return out
 
 
-def run_distance(facts, rows, n, min_freq, filt_ambig, threads=1):
+def run_distance(facts, rows, n, min_freq, filt_ambig, threads=1, names=None):
+    """generic_modes::distance interpreted completely; the output stream is a captured sink; -> ({(name_i, name_j): (snps, mismatch)}, text)"""
     from . import tableops
-    t = tableops.Table(['s%d' % i for i in range(n)], [(i + 1, b) for i, b in enumerate(rows)])
+    names = names or ['s%d' % i for i in range(n)]
+    t = tableops.Table(names, [(i + 1, b) for i, b in enumerate(rows)])
     arr = tableops.mk_array(facts, t, [1] * len(rows))            # stored counts arbitrary
-    g = facts.fn('generic_modes::distance')
-    stop = [bb for bb, tm in g.calls() if (tm.callee.name or '').endswith('set_ostream')]
-    if len(stop) != 1:
-        raise AnchorLost('generic_modes::distance: %d set_ostream calls' % len(stop))
     I = Interp(facts, {'IntT': 'u64'})
-    fr = I.new_frame(g)
-    fr[1].v = RefV(arr)
-    fr[2].v = RefV(Cell(NONE, 'prefix'))
-    fr[3].v = float(min_freq)
-    fr[4].v = BV(1, filt_ambig)
-    fr[5].v = BV(64, threads)
-    I.exec_body(g, [], start=0, stop=stop, frame=fr)
-    dl = g.locals_named('distances')
-    if len(dl) != 1:
-        raise AnchorLost('generic_modes::distance: local `distances`')
-    d = fr[dl[0]].v
+    I.out_files = {}
+    sink = Cell(Agg('sink', 0, ['<out>', []]), 'ostream')
+    I.overrides['io_utils::set_ostream'] = lambda I_, a, t_, c: Agg('bufwriter', 0, [RefV(sink)])
+    I.call_fn('generic_modes::distance', [RefV(arr), RefV(Cell(NONE, 'prefix')), float(min_freq), BV(1, filt_ambig), BV(64, threads)])
+    text = ''.join(sink.v.fields[1])
+    lines = text.splitlines()
+    if not lines or lines[0] != 'Sample1\tSample2\tDistance\tMismatches':
+        raise AnchorLost('distance output header is %r' % (lines[:1],))
     out = {}
-    for i, row in enumerate(d.fields):
-        for off, pair in enumerate(row.fields):
-            out[(i, i + 1 + off)] = (pair.fields[0], pair.fields[1])
-    names, _, _, _, _ = tableops.read_array(facts, arr)
-    return out, names
+    for ln in lines[1:]:
+        a, b, d, m = ln.split('\t')
+        if (a, b) in out:
+            raise AnchorLost('pair %s %s printed twice' % (a, b))
+        out[(a, b)] = (float(d), float(m))
+    return out, text
 
 
 def check_distance_e2e(facts, chk, rule, tier):
@@ -299,19 +295,22 @@ def check_distance_e2e(facts, chk, rule, tier):
         tables.append((n, ['A' * n, 'C' * n]))                        # constant sites only: identical samples
         if n >= 3:
             tables.append((n, ['-' * (n - 1) + 'A', '-' * (n - 1) + 'C', '-' * (n - 2) + 'AC']))    # pairs of samples without any k-mer
-    for n, rows in tables:
+    for ti, (n, rows) in enumerate(tables):
+        # sample names deliberately not in alphabetical order (the output must follow the column order of the file)
+        names = ['zed', 'alpha', 'mid', 'beta'][:n] if ti % 2 == 0 else ['s%d' % i for i in range(n)]
         for mf in sorted({0.0, 1.0 / n, 0.5, (n - 1) / n, 1.0}):
             for fa in (0, 1):
                 for threads in ((1, 2) if mf == 0.0 else (1,)):
                     nrun += 1
-                    want = spec_distance(rows, n, mf)
+                    w = spec_distance(rows, n, mf)
+                    want = {(names[i], names[j]): (round(v[0], 2), round(v[1], 5)) for (i, j), v in w.items()}
                     try:
-                        got, names = run_distance(facts, rows, n, mf, fa, threads)
+                        got, text = run_distance(facts, rows, n, mf, fa, threads, names)
                     except Panic as p:
                         bad.append((n, rows, mf, fa, 'panic: %s' % p.kind, None))
                         continue
-                    ok = set(got) == set(want) and all(abs(got[k][0] - want[k][0]) < 1e-9 and abs(got[k][1] - want[k][1]) < 1e-9 for k in want)
-                    if not ok or names != ['s%d' % i for i in range(n)]:
+                    ok = set(got) == set(want) and all(abs(got[k][0] - want[k][0]) < 0.006 and abs(got[k][1] - want[k][1]) < 0.000006 for k in want)
+                    if not ok:
                         bad.append((n, rows, mf, fa, got, want))
     if bad:
         n, rows, mf, fa, got, want = bad[0]
@@ -319,4 +318,65 @@ def check_distance_e2e(facts, chk, rule, tier):
                       detail='%d of %d cases differ; first: %d samples rows %s min_freq=%.3f filter_ambiguous=%d: distances %s, specified %s' % (len(bad), nrun, n, rows[:12], mf, fa, str(got)[:300], str(want)[:300]))
     else:
         chk.ok(rule, key, 'generic_modes::distance', 'each unordered pair once; SNP distance = shared k-mers with different bases, mismatch proportion = |exactly one| / |at least one| over the k-mers passing ceil(f x n); '
-               'independent of stored counts and thread argument (%d table x threshold x flag cases, 2..4 samples)' % nrun, evals=nrun)
+               'independent of stored counts and thread argument; printed under the names of the two columns in file order (%d table x threshold x flag cases, 2..4 samples)' % nrun, evals=nrun)
+
+
+# ------------------------------------------------------------------ ska weed end to end (C13)
+def check_weed_e2e(facts, chk, rule, tier):
+    """generic_modes::weed interpreted with the weed sequences in a virtual FASTA and MergeSkaArray::save captured: with
+    frequency filtering off (min_freq 0, default site filter) the saved table is the original minus (reverse: restricted
+    to) the split k-mers of the weed sequences on either strand; every surviving row keeps all bases; names unchanged;
+    weed / reverse weed partition the file; weeding twice changes nothing."""
+    import copy
+    from . import tableops
+    key = rule + ':weed'
+    k = 5
+    bad = []
+    n = 0
+    sample_sets = [
+        [('s0', ['ACCAGTTGACCAT', 'GGTACCA']), ('s1', ['ACCAGATGACC', 'TGGTACC', 'ACCAGCTGA'])],      # s1 carries an ambiguous middle base (two copies differing at one site)
+        [('a', ['AACCGGTTAACCA']), ('b', ['AACCGTTTAACCA', 'AACCGATTAACCA']), ('c', ['TTGGC'])],
+    ]
+    weeds = [['CAGTTGAC'], ['GTCAACTG'], ['ACCNGTTGAC', 'GGGGGGG'], ['TTTTTTTT'], ['ACCAGTTGACCAT', 'GGTACCA', 'ACCAGATGACC', 'AACCGGTTAACCA', 'AACCGTTTAACCA']]
+    for samples in sample_sets:
+        for rc in (1, 0):
+            for weed in weeds:
+                results = {}
+                for reverse in (0, 1):
+                    for faam in (0, 1):
+                        I = Interp(facts, {'IntT': 'u64'})
+                        I.files = {'weed.fa': ('fasta', [('w%d' % i, s, None) for i, s in enumerate(weed)])}
+                        arr = build_array(facts, I, samples, k, rc)
+                        before = tableops.read_array(facts, arr)
+                        saved = []
+                        I.overrides[MSA + '::save'] = lambda I_, a, t, c: (saved.append(copy.deepcopy(I_.load(a[0]))), Agg('adt:std::result::Result', 0, [Agg('tuple', 0, [])]))[1]
+                        n += 1
+                        try:
+                            I.call_fn('generic_modes::weed', [RefV(arr), RefV(Cell(some(StrV(list('weed.fa'))), 'wf')), BV(1, reverse), 0.0, BV(1, faam),
+                                                              tableops.filter_type(facts, 'NoFilter'), BV(1, 0), BV(1, 0), RefV(Cell(StrV(list('out')), 'o'))])
+                        except Panic as p:
+                            bad.append((samples, weed, rc, reverse, faam, 'panic: %s' % p.kind))
+                            continue
+                        if len(saved) != 1:
+                            bad.append((samples, weed, rc, reverse, faam, '%d saves' % len(saved)))
+                            continue
+                        after = tableops.read_array(facts, Cell(saved[0], 'saved'))
+                        wk = set()
+                        for s in weed:
+                            for (v, m, flag, pos) in skiter.spec(s, k, rc):
+                                wk.add(v)
+                        names, kmers, rows, counts, ncols = before
+                        want = [(km, r) for km, r in zip(kmers, rows) if (km in wk) == bool(reverse)]
+                        got = list(zip(after[1], after[2]))
+                        results[(reverse, faam)] = got
+                        if after[0] != names or got != want:
+                            bad.append((samples, weed, rc, reverse, faam, 'saved rows %s, specified %s' % (got[:4], want[:4])))
+                # partition: weed + reverse weed = original (as multisets of rows)
+                if (0, 0) in results and (1, 0) in results and sorted(results[(0, 0)] + results[(1, 0)]) != sorted(zip(before[1], before[2])):
+                    bad.append((samples, weed, rc, '-', 0, 'weed and reverse weed do not partition the file'))
+    if bad:
+        samples, weed, rc, reverse, faam, why = bad[0]
+        chk.violation(rule, key, where='generic_modes::weed', evals=n, detail='%d of %d cases; first: %s; samples %s weed sequences %s rc=%s reverse=%s filter_ambig_as_missing=%s' % (len(bad), n, why, samples, weed, rc, reverse, faam))
+    else:
+        chk.ok(rule, key, 'generic_modes::weed', 'with filtering off the saved file = original minus / restricted to the split k-mers of the weed sequences (either strand when merged), rows and names untouched, '
+               'the two modes partition the file (%d runs: overlapping, reverse-complemented, N-containing, unrelated and all-covering weed sets; with and without --filter-ambig-as-missing)' % n, evals=n)
